@@ -2,13 +2,13 @@
 
 import random
 
-from harness import progs
+from harness import progs, progs_calls
 from harness.common import Check
 from harness.e1corpus import Item, describe, run_items
 
 BUDGET = {
-    "quick": {"arith": 16, "control": 16, "memory": 12, "state": 14},
-    "thorough": {"arith": 400, "control": 400, "memory": 300, "state": 300},
+    "quick": {"arith": 16, "control": 16, "memory": 14, "state": 12, "calls": 8},
+    "thorough": {"arith": 400, "control": 400, "memory": 300, "state": 300, "calls": 250},
 }
 
 
@@ -17,13 +17,15 @@ def build_items(tier: str, seed: int, budget=None):
     items = []
     for fam, n in (budget or BUDGET[tier]).items():
         for _ in range(n):
-            prog, inputs = progs.FAMILIES[fam](rnd)
+            prog, inputs = (progs_calls.fam_calls if fam == "calls" else progs.FAMILIES[fam])(rnd)
             items.append(Item(prog, inputs))
     return items
 
 
 def run(chk: Check, tier: str):
-    items = build_items(tier, chk.seed)
+    from harness import probes
+
+    items = probes.c01_probes() + build_items(tier, chk.seed)
     batch = 120
     nprog = 0
     for i in range(0, len(items), batch):
